@@ -34,6 +34,9 @@ def main() -> int:
     cases_p = ck.work / "cases.json"
     g = ck.tlc("WrapGen", "WrapGen%s.cfg" % suffix, what="G: texts x widths", env={"VERIF_OUT": str(cases_p)}, count=False)
     cases = core.read_json(cases_p)
+    if ck.replay_case is not None:
+        rc = ck.replay_case
+        cases = [{"text": core.cps(rc["text"]), "width": rc["width"]}] * 8
     n_spec = len(cases)
     if not ck.quick and len(cases) > 400000:
         rnd.shuffle(cases)
@@ -77,6 +80,6 @@ def main() -> int:
     ck.cov["exhaustive"] = True
     ck.cov["samples"] = [{"text": core.from_cps(o["text"]), "width": o["width"], "segs": [core.from_cps(s) for s in o["segs"]]} for o in (obs[7], obs[len(obs) // 2], obs[-1])]
     ck.assumptions += ["TLC, SANY, CommunityModules Json", "most permissive reading: a segment longer than the width must be a single token (word or article+word, with its separating space)"]
-    if nontrivial == 0:
+    if nontrivial == 0 and ck.replay_case is None:
         raise core.MachineryFailure("vacuous run")
     return ck.finish()
